@@ -1,0 +1,25 @@
+//go:build verif
+// +build verif
+
+package mysql
+
+// Add-only exports for the verification harness (property C11, build tag verif).
+
+// VerifBuffered returns how many bytes the connection's buffered reader has
+// taken from the transport but not yet handed out.
+func (c *Conn) VerifBuffered() int {
+	if c.bufferedReader == nil {
+		return 0
+	}
+	return c.bufferedReader.Buffered()
+}
+
+// VerifReadHeader exposes readHeaderFrom on the connection's reader.
+func (c *Conn) VerifReadHeader() (int, error) {
+	return c.readHeaderFrom(c.getReader())
+}
+
+// VerifReadOnePacket exposes readOnePacket.
+func (c *Conn) VerifReadOnePacket() ([]byte, error) {
+	return c.readOnePacket()
+}
